@@ -276,6 +276,19 @@ pub fn scenarios(tier: &str) -> Vec<(String, CasScenario)> {
             setup_import: None,
         },
     ));
+    // keys inside each other: refused and accepted compare-and-sets below and above a CAS key (a
+    // refused write creates and removes nodes on its way) must not disturb that key's version chain
+    v.push((
+        "nested-keys".to_owned(),
+        CasScenario {
+            programs: vec![
+                cycles("x", 2),
+                vec![Instr::CSetAbs("x/y", 3), Instr::CSetAbs("x/y", 0), Instr::CSetAbs("x/y/z", 2), Instr::Delete("x/y")],
+                vec![Instr::CSetAbs("x/y/z", 5), Instr::CGet("x"), Instr::CSetFromLast("x")],
+            ],
+            setup_import: None,
+        },
+    ));
     v.push((
         "u64-boundary".to_owned(),
         CasScenario {
